@@ -2,7 +2,7 @@
 
 E1: MCMdPlacement - on a small scope the writer's and the reader's way to the file are the same function, the file second T is
     the unique multiple of the cadence with T*n <= k*d < (T+fc)*n, k = ceil(T*n/d) is the first index of its file;
-    MCPlacement (MdOwn); MCMetadata (PlacementExact: every stored sample is in the file of its window and in no other).
+    MCMetadata (PlacementExact: every stored sample is in the file of its window and in no other).
 E3: for random (n, d, file cadence, subdirectory cadence) and every file number j of a window in 1980-2100 the indices
     ceil(j*fc*n/d) + {-1, 0, +1} are written singly with the real writer; the path it chose (found with raw h5py), whether
     read(k, k) returns the sample and whether read_latest returns it are one `md` record each, all magnitudes as base-10^4
@@ -23,9 +23,9 @@ YEARS = [1980, 1999, 2023, 2038, 2069, 2099]
 
 
 def draw_config(rng):
-    fam = rng.choice(["third", "seventh", "int", "x1001", "prime", "small", "slow", "big7"])
+    fam = rng.choice(["third", "third", "seventh", "seventh", "int", "x1001", "prime", "small", "small", "small", "slow", "big7"])
     if fam == "third":
-        n, d = rng.choice([10**6, 10**7, 10, rng.randint(1, 10**9)]), 3
+        n, d = rng.choice([10**6, 10**7, 10, 13, 26, rng.randint(1, 10**9)]), 3
     elif fam == "seventh":
         n, d = rng.choice([10**8, 10**6, rng.randint(1, 10**9)]), 7
     elif fam == "big7":
@@ -37,10 +37,12 @@ def draw_config(rng):
     elif fam == "prime":
         n, d = rng.choice([4294967291, 4294967279, 2147483647, 65537]), rng.choice([1, 3, 11, 1000, 999983])
     elif fam == "small":
-        n, d = rng.randint(1, 400), rng.randint(1, 60)
+        n, d = rng.randint(1, 400), rng.randint(2, 60)
     else:
         n, d = rng.randint(1, 5), rng.choice([7, 10, 60, 3600, rng.randint(2, 10**4)])
     fc = rng.choice([1, 1, 2, 3, 10, 60, 60, 600, 3600, rng.randint(1, 5000)])
+    if d > 1 and d <= 5000 and rng.random() < 0.5:
+        fc = d * rng.choice([1, 1, 2, 5, 10, 60])      # every file boundary falls exactly on an index
     sc = fc * rng.choice([1, 2, 3, 10, 60, 600])
     return n, d, fc, sc
 
@@ -48,7 +50,6 @@ def draw_config(rng):
 def run(ctx):
     ctx.model_check("MCMdPlacement", "MCMdPlacement.cfg", coverage=False)
     mc.witnesses(ctx, "MCMdPlacement", ["NoEmptyFile", "BoundaryOnGrid"])
-    ctx.model_check("MCPlacement", "MCPlacement.cfg", coverage=False, tag="rfmd")
     ctx.model_check("MCMetadata", "MCMetadata_c20_quick.cfg" if ctx.quick else "MCMetadata_c20.cfg", coverage=False, timeout=3600)
     mc.witnesses(ctx, "MCMetadata", mc.W_C13)
     ctx.stage()
@@ -57,7 +58,7 @@ def run(ctx):
     import digital_rf
 
     rng = ctx.rng
-    evs = []
+    evs, tscen = [], []
     nidx = ctx.pick(600, 50000)
     nconf = 0
     with quiet_stderr():
@@ -68,22 +69,25 @@ def run(ctx):
             j0 = t // fc
             if rng.random() < 0.5:
                 j0 = ((t // sc) * sc) // fc - rng.randint(0, 3)     # the window of file numbers crosses a subdirectory boundary
+            if rng.random() < 0.5:
+                j0 = (j0 // d) * d - rng.randint(0, 2)                 # ... contains a boundary that falls exactly on an index
             nj = rng.randint(4, 12)
             if (j0 + nj) * fc * n // d >= 2**62:
                 continue
-            evs += md.placement_sweep(digital_rf, os.path.join(ctx.work, "md", "c13"), n, d, fc, sc, range(j0, j0 + nj), limbs, pd.sub_fields)
+            recs = md.placement_sweep(digital_rf, os.path.join(ctx.work, "md", "c13"), n, d, fc, sc, range(j0, j0 + nj), limbs, pd.sub_fields)
+            tscen.append(dict(name="mdplace%d" % nconf, desc="%d/%d Hz, %d s files, %d s subdirs, files %d..%d" % (n, d, fc, sc, j0, j0 + nj - 1),
+                              events=recs))
+            evs += recs
             nconf += 1
         # protocol half: histories of the metadata model (files found on disk against the partition of the specification)
-        s1, bad = mc.e2(ctx, digital_rf, ctx.pick(25, 400), ctx.pick(18, 26), deep=False)
-        s2 = mc.e3(ctx, digital_rf, ctx.pick(25, 600), "c12")
-    per = 300
-    tscen = [dict(name="mdplace%d" % i, events=evs[i:i + per]) for i in range(0, len(evs), per)]
+        s1, bad = mc.e2(ctx, digital_rf, ctx.pick(15, 400), ctx.pick(18, 26), deep=False)
+        s2 = mc.e3(ctx, digital_rf, ctx.pick(20, 600), "c12")
     ctx.evaluations = len(evs) + sum(1 for s in s1 + s2 for e in s["events"] if e["ev"] == "write")
     ctx.extra.update(configurations=nconf, placement_records=len(evs), spec_behaviours_replayed=len(s1), random_histories=len(s2),
                      records_not_found_by_reader=sum(1 for e in evs if not e["found"]),
                      rule="(n, d) from x/3, x/7 (incl. 10^8/7), integers up to 2^32-1, x/1001, primes near 2^32 over small and large d, small "
                           "fractions and rates far below 1 Hz; file cadence 1-5000 s, subdirectory cadence 1-600 files; for 4-12 consecutive "
-                          "file numbers j (half of the windows cross a subdirectory boundary, 1980-2100): write ceil(j*fc*n/d)+{-1,0,+1} singly, "
+                          "file numbers j (half of the windows cross a subdirectory boundary, half contain a file boundary that falls exactly on an index, 1980-2100): write ceil(j*fc*n/d)+{-1,0,+1} singly, "
                           "locate the group with raw h5py, read(k,k) and read_latest alternately by a reader created before any write and a "
                           "fresh one")
     if evs:
